@@ -11,6 +11,7 @@ import (
 	"encoding/hex"
 	"encoding/json"
 	"fmt"
+	"gitlab.com/aquachain/aquachain/core/vm"
 	"math/big"
 	"math/rand"
 
@@ -56,6 +57,7 @@ type vtree struct {
 	// transactions "t1", "t2" of the model; forced lists what the next block must carry
 	scripted bool
 	forced   []*types.Transaction
+	cc       *BlockChain // chain context of the generator (header lookups for BLOCKHASH)
 }
 
 // chain configs used by the drivers
@@ -191,7 +193,7 @@ func (t *vtree) extend(rng *rand.Rand, parent *vblk, n int, ct vcontent, fixedOf
 		bg.SetExtra([]byte(fmt.Sprintf("v%d.%d", len(t.blocks), i))) // no two generated blocks are identical
 		if i == 0 {
 			for _, ftx := range t.forced {
-				bg.AddTx(ftx)
+				t.addTx(bg, ftx)
 			}
 		}
 		for j := 0; j < ct.bulk; j++ {
@@ -201,7 +203,7 @@ func (t *vtree) extend(rng *rand.Rand, parent *vblk, n int, ct vcontent, fixedOf
 			if err != nil {
 				panic(err)
 			}
-			bg.AddTx(stx)
+			t.addTx(bg, stx)
 		}
 		if rng.Float64() < ct.txProb {
 			ntx := 1 + rng.Intn(ct.maxTx)
@@ -218,7 +220,7 @@ func (t *vtree) extend(rng *rand.Rand, parent *vblk, n int, ct vcontent, fixedOf
 						cands = append(cands, tx)
 					}
 					if len(cands) > 0 {
-						bg.AddTx(cands[rng.Intn(len(cands))])
+						t.addTx(bg, cands[rng.Intn(len(cands))])
 						continue
 					}
 				}
@@ -275,7 +277,7 @@ func (t *vtree) extend(rng *rand.Rand, parent *vblk, n int, ct vcontent, fixedOf
 				if err != nil {
 					panic(err)
 				}
-				bg.AddTx(stx)
+				t.addTx(bg, stx)
 			}
 		}
 		// uncles: a tree block whose parent is an ancestor of generation 2..7 of this block
@@ -326,6 +328,7 @@ func (t *vtree) extend(rng *rand.Rand, parent *vblk, n int, ct vcontent, fixedOf
 		cur.children = append(cur.children, vb)
 		t.blocks = append(t.blocks, vb)
 		t.byHash[b.Hash()] = vb
+		WriteHeader(t.gendb, b.Header()) // for the generator's BLOCKHASH lookups (see addTx)
 		if b.NumberU64() > t.maxNum {
 			t.maxNum = b.NumberU64()
 		}
@@ -434,4 +437,38 @@ func (t *vtree) describe() map[string]interface{} {
 		all = append(all, fmt.Sprintf("t%d", i+1))
 	}
 	return map[string]interface{}{"e": "tree", "name": t.name, "cfg": t.cfgName, "blocks": bl, "alltx": all, "maxn": int(t.maxNum) + 2}
+}
+
+// BlockGen.AddTx hands the EVM a nil chain, so BLOCKHASH cannot be used in generated blocks; this is AddTx with a chain whose
+// header store (the generator's database) holds the headers of the tree built so far and of the segment being generated.
+func (t *vtree) chainCtx() *BlockChain {
+	if t.cc == nil {
+		hc, err := NewHeaderChain(context.TODO(), t.gendb, t.cfg, aquahash.NewFaker(), func() bool { return false })
+		if err != nil {
+			panic(err)
+		}
+		t.cc = &BlockChain{hc: hc, engine: aquahash.NewFaker()}
+	}
+	return t.cc
+}
+
+func (t *vtree) addTx(b *BlockGen, tx *types.Transaction) {
+	if b.gasPool == nil {
+		b.SetCoinbase(common.Address{})
+	}
+	if b.parent != nil {
+		WriteHeader(t.gendb, b.parent.Header())
+	}
+	for _, blk := range b.chain {
+		if blk != nil {
+			WriteHeader(t.gendb, blk.Header())
+		}
+	}
+	b.statedb.Prepare(tx.Hash(), common.Hash{}, len(b.txs))
+	receipt, _, err := ApplyTransaction(b.config, t.chainCtx(), &b.header.Coinbase, b.gasPool, b.statedb, b.header, tx, &b.header.GasUsed, vm.Config{})
+	if err != nil {
+		panic(err)
+	}
+	b.txs = append(b.txs, tx)
+	b.receipts = append(b.receipts, receipt)
 }
